@@ -158,9 +158,9 @@ CHECKS = {
         "level": EXPL,
         "technique": "runtime monitoring under a controlled scheduler: OpenMP executors linked against a GOMP-ABI shim that records declared dependencies and runs every task under hostile legal schedules; offline O-dag checker (observed conflicting accesses vs declared graph), bit-exact comparison with the sequential executor, ASan (stack-use-after-return/scope) and TSan builds",
         "claim": "For every explored tree and schedule (10 policies incl. full deferral, LIFO, random, priority-inverted, waves; 1..16 threads; random worker assignment) the OpenMP executors left the tree bit-identical to the sequential one; every pair of tasks observed to touch the same cell/leaf object with a writer was ordered by the declared dependencies (so every linear extension of the observed graphs is conflict-free); no task read a dead variable (ASan) and overlapping tasks showed no data race (TSan).",
-        "note": "Trusted: the shim's reading of the GOMP ABI (argument block copy, depend[] layout, priority) and of OpenMP task-dependence semantics; access sets are observed at cell/leaf granularity by the probe kernel. Specx/StarPU executors are not covered in this round (no mock runtime yet) - stated in DESIGN.md.",
-        "jobs": [{"bin": "h_sched", "mode": "c03"}, {"bin": "h_sched_tsan", "mode": "c03"}, {"bin": "h_specx", "mode": "c03", "thorough_only": True}, {"bin": "h_specx_tsan", "mode": "c03", "thorough_only": True},
-                 {"bin": "h_starpu", "mode": "c03", "thorough_only": True}, {"bin": "h_starpu_tsan", "mode": "c03", "thorough_only": True}],
+        "note": "Trusted: the shim's reading of the GOMP ABI (argument block copy, depend[] layout, priority) and of OpenMP task-dependence semantics; access sets are observed at cell/leaf granularity by the probe kernel. The Specx and StarPU executors run against API-compatible mock runtimes built on the same scheduler core (ASan builds in both tiers, TSan builds in the thorough tier); the mocks are our reading of the runtimes' documented contract, not the runtimes.",
+        "jobs": [{"bin": "h_sched", "mode": "c03"}, {"bin": "h_sched_tsan", "mode": "c03"}, {"bin": "h_specx", "mode": "c03"}, {"bin": "h_specx_tsan", "mode": "c03", "thorough_only": True},
+                 {"bin": "h_starpu", "mode": "c03"}, {"bin": "h_starpu_tsan", "mode": "c03", "thorough_only": True}],
         "rule": "case = one random tree (Dim 1..3, Morton and periodic Morton, heights up to 5..8, small block sizes so that many tasks exist) executed by TbfOpenmpAlgorithm under a set of schedules: quick = each of the 10 policies with a random thread count in {1,2,3,4,8,16} + single-thread full deferral + a 16-thread wave; thorough = every policy x every thread count; TSan build = wave policies on 2..16 threads. non-trivial = more than 3 tasks per schedule; distinct = tree signature. Evidence counts tasks, declared edges, conflicting pairs checked, distinct execution orders, max overlap.",
         "require_events": ["schedules-executed", "tasks-executed", "dag-conflicting-pairs-checked", "distinct-execution-orders"],
         "assumptions": ["task bodies are deterministic functions of the data they access (checked by observation: bit-identical results under all schedules)"],
@@ -170,7 +170,7 @@ CHECKS = {
         "technique": "runtime monitoring: exact probe kernels (per-source multiset, polynomial) on target/source trees against the coordinate model and the direct sum; OpenMP target/source executor under the scheduler shim with O-dag/O-seq/P-rec and ASan",
         "claim": "On every explored pair of source/target sets each target accumulated exactly one contribution from each source (model count when periodic), nothing else; source multipoles and target locals equalled the model cell by cell; the OpenMP target/source executor gave bit-identical trees under all explored schedules with all observed conflicts ordered by declared dependencies.",
         "note": "Sources carry no result storage and targets no multipoles by type (NbRhs=0 / void_data), which is observed by the recorder never being handed such an object.",
-        "jobs": [{"bin": "h_fmm", "mode": "c09"}, {"bin": "h_sched", "mode": "c09"}, {"bin": "h_specx", "mode": "c09", "thorough_only": True}, {"bin": "h_starpu", "mode": "c09", "thorough_only": True}],
+        "jobs": [{"bin": "h_fmm", "mode": "c09"}, {"bin": "h_sched", "mode": "c09"}, {"bin": "h_specx", "mode": "c09"}, {"bin": "h_starpu", "mode": "c09"}],
         "rule": "case = independent source and target sets (independent / disjoint halves / identical positions / sources in one leaf / targets in one leaf / single source or target) x distributions x geometry x block sizes x both modes; OpenMP executor under the C03 schedule sets (h_sched). non-trivial = more than 3 tasks per schedule (h_sched) / at least one far or near leaf pair (h_fmm); distinct = configuration hash.",
         "require_events": ["schedules-executed", "tasks-executed", "poly-results-checked", "tsm-pairs-checked", "tsm-cells-checked"],
         "assumptions": [],
